@@ -58,7 +58,15 @@ def check_move_obj(rep, prop, db, f, inst, other_name=None):
         rep.inconclusive(rule, site(f), str(ex), inst)
         return
     other = ("pobj", f["params"][0]["n"])
+    n_transfer = 0
     for p in ps:
+        if f.get("kind") == "ctor":
+            # a constructor written as "start empty, then assign": the assignment's self-identity branch (`this == &other`) concerns
+            # an object constructed from itself, which no program can do with a live owner - the transferring path carries the obligation
+            conds = q.conds_before(p, len(p.events))
+            if any(isinstance(c, tuple) and c[0] == "cmp" and c[1] == "==" and {c[2], c[3]} == {("this",), ("addr", other)} for c in conds):
+                continue
+        n_transfer += 1
         got, reset = {}, {}
         for e in p.events:
             if e.kind == "STORE" and e.a[0] == "fld":
@@ -75,6 +83,9 @@ def check_move_obj(rep, prop, db, f, inst, other_name=None):
         if bad:
             rep.violation(rule, site(f), "; ".join(bad), f["loc"], inst)
             return
+    if not n_transfer:
+        rep.violation(rule, site(f), "no path of the move constructor transfers the registration", f["loc"], inst)
+        return
     rep.ok(rule, site(f), "all %d fields transferred and the source reset: %s" % (len(fields), fields), inst)
 
 
